@@ -37,9 +37,10 @@ class C17(L1Prop):
             # every fourth configuration with several addresses: they differ in the HOST only (one port)
             same_port = nl > 1 and (k % 4 == 1 or r.random() < 0.2)
             allow = r.choice(["none", "none", "flag:1", "flags:1,2", "env:2", "env:1,2,3", "flag:1,2"])
-            vk = r.choice([1, 2, 3, 5])
-            vsrc = r.choice(["default", f"flag:{vk}", f"env:{vk}", f"both:{vk}/{vk + 7}"])
-            dk = r.choice([1, 2, 3])
+            # (a target of 0 is meaningful: everything is at least that old; so are targets at the top of their type)
+            vk = r.choice([0, 1, 2, 3, 5, 4294967295])
+            vsrc = r.choice(["default", f"flag:{vk}", f"env:{vk}", f"both:{vk}/{min(vk + 7, 4294967295)}"])
+            dk = r.choice([0, 1, 2, 3, 9223372036854775807])
             ysrc = r.choice(["default", "default", f"flag:{dk}", f"env:{dk}"])
             v6 = (not same_port) and k % 5 == 4
             boot = f"boot listen={lsrc}:{nl}{'h' if same_port else ('6' if v6 else '')} log={['error', 'debug', 'trace'][k % 3]} dir={dsrc} allow={allow} versions={vsrc} days={ysrc}"
